@@ -91,3 +91,72 @@ fn c11_name_location_roundtrip() {
     kani::cover!(!heap && raw == ID_MASK);
 }
 
+
+/// C11 (BOUNDED stand-in; shape-independent companion of the Verus unit `linecol`): `SourceFile::get_line_column` equals a direct
+/// transcription of the rule -- line = 1 + number of GraphQL LineTerminators (LF, CRLF as one, lone CR) that END at or before the
+/// offset; column = 1 + number of UTF-8 leading bytes between the end of the last such terminator and the offset; None iff the
+/// offset is beyond the text -- on every 3-character text over {LF, CR, 'a'} with U+00E9 (2 bytes) optionally in front or in the
+/// middle, and every offset up to len + 1.
+fn c11_check_line_column(b: &[u8]) {
+    let len = b.len();
+    // valid UTF-8 by construction
+    let text = String::from(unsafe { std::str::from_utf8_unchecked(b) });
+    let file = SourceFile { path: PathBuf::new(), source_text: text, source: OnceLock::new() };
+    let offset: usize = kani::any();
+    kani::assume(offset <= len + 1);
+    let got = file.get_line_column(offset);
+    if offset > len {
+        assert!(got.is_none());
+        return;
+    }
+    // a line terminator ends exactly at position i (exclusive end)
+    let ends_at = |i: usize| -> bool { i >= 1 && i <= len && (b[i - 1] == b'\n' || (b[i - 1] == b'\r' && !(i < len && b[i] == b'\n'))) };
+    let mut line = 1usize;
+    let mut line_start = 0usize;
+    let mut i = 1;
+    while i <= offset {
+        if ends_at(i) {
+            line += 1;
+            line_start = i;
+        }
+        i += 1;
+    }
+    let mut column = 1usize;
+    let mut j = line_start;
+    while j < offset {
+        if b[j] & 0xC0 != 0x80 {
+            column += 1;
+        }
+        j += 1;
+    }
+    let got = got.unwrap();
+    assert!(got.line == line);
+    assert!(got.column == column);
+    kani::cover!(offset == len);
+    kani::cover!(len >= 2 && b[len - 1] == b'\r' && offset == len);
+    kani::cover!(len >= 2 && b[0] == b'\r' && offset == 1);
+}
+fn c11_any_ascii_class() -> u8 {
+    let c: u8 = kani::any();
+    kani::assume(c == b'\n' || c == b'\r' || c == b'a');
+    c
+}
+// @verif prop=C11 class=bounded bound="all 3-character texts over {LF, CR, 'a'}; every offset 0..=len+1" targets="SourceFile::get_line_column"
+#[kani::proof]
+#[kani::unwind(7)]
+fn c11_get_line_column_ascii_3() {
+    let b = [c11_any_ascii_class(), c11_any_ascii_class(), c11_any_ascii_class()];
+    c11_check_line_column(&b);
+}
+// @verif prop=C11 class=bounded bound="U+00E9 (2 bytes) in front of or between two characters over {LF, CR, 'a'}; every offset 0..=len+1" targets="SourceFile::get_line_column"
+#[kani::proof]
+#[kani::unwind(7)]
+fn c11_get_line_column_multibyte() {
+    let x = c11_any_ascii_class();
+    let y = c11_any_ascii_class();
+    if kani::any() {
+        c11_check_line_column(&[0xC3, 0xA9, x, y]);
+    } else {
+        c11_check_line_column(&[x, 0xC3, 0xA9, y]);
+    }
+}
